@@ -46,77 +46,122 @@ def agree(R, ctx):
     R.require(rid, "floor:assignments", n >= 3, "", "%d node rewrites checked (floor 3)" % n)
 
 
-def matchers(R, ctx):
-    rid = "C17.matchers"
+def _matcher_values(ctx):
+    """Every matcher handed to RemoveFunctionCallProcessor::new in the library: [(label, value for peval, site)]."""
+    from ..peval import FnItem, Struct
     lib = ctx.lib
-    R.rule(rid, "each matcher (AssertMatcher::matches, remove_debug_profiling::should_remove_call) returns false under "
-                "is_identifier_used(NAME) for the same constant NAME that it compares the call's root identifier with")
-    targets = [
-        ("<rules::remove_assertions::AssertMatcher as rules::remove_call_match::CallMatch<()>>::matches", "assert"),
-        ("rules::remove_debug_profiling::should_remove_call", "debug"),
-    ]
-    for path, label in targets:
-        fn = lib.fn(path)
-        if not R.require(rid, "anchor:" + label, fn is not None, "", "%s not found" % path):
+    out = []
+    for f in lib.fn_list:
+        if not thir.body_of(f) or "::test" in f["path"]:
             continue
-        used_consts, cmp_consts = set(), set()
-        for n in thir.walk(thir.body_of(fn)):
-            if n.get("k") == "Call" and n.get("fname") == "is_identifier_used":
-                for x in thir.walk(n["args"][1]):
-                    if x.get("k") == "Const":
-                        used_consts.add(x["def"])
-                    if x.get("k") == "Lit":
-                        used_consts.add(x["v"])
-            if n.get("k") == "Call" and n.get("fname") in ("eq", "ne") or n.get("k") == "Binary" and n.get("op") in ("Eq", "Ne"):
-                sub = n["args"] if n.get("k") == "Call" else [n["l"], n["r"]]
-                # comparison of an identifier's name (get_name) with a constant, where the identifier is a Prefix::Identifier payload
-                names = [y for s in sub for y in thir.walk(s) if y.get("k") == "Call" and y.get("fname") == "get_name"]
-                is_root = any(any(o == ("nodes::expressions::prefix::Prefix", "Identifier.0") for o in ctx.an.fa(fn["path"]).origins(y["args"][0])) for y in names)
-                if names and is_root:
-                    for s in sub:
-                        for x in thir.walk(s):
-                            if x.get("k") == "Const":
-                                cmp_consts.add(x["def"])
-                            if x.get("k") == "Lit" and x["v"].startswith('"'):
-                                cmp_consts.add(x["v"])
-        R.ob(rid, "%s|queries-scope" % label, bool(used_consts), ctx.where(fn), "is_identifier_used(%s)" % sorted(used_consts))
-        R.ob(rid, "%s|same-name" % label, bool(used_consts) and used_consts == cmp_consts, ctx.where(fn),
-             "scope queried for %s, root identifier compared with %s" % (sorted(used_consts), sorted(cmp_consts)))
-        # the query leads to `return false` / false
-        fa = ctx.an.fa(fn["path"])
-        early = False
-        for n in thir.walk(thir.body_of(fn)):
-            if n.get("k") == "If" and any(c.get("fname") == "is_identifier_used" for c in thir.walk(n["cond"]) if c.get("k") == "Call"):
-                neg = n["cond"].get("k") == "Unary"
-                rets = [x for x in thir.walk(n["then"]) if x.get("k") == "Return" and x.get("e", {}).get("k") == "Lit" and x["e"]["v"] == "false"]
-                early = bool(rets) and not neg
-        R.ob(rid, "%s|shadowed-means-no-match" % label, early, ctx.where(fn), "`if is_identifier_used(NAME) { return false }`: %s" % early)
+        for c in thir.calls(f):
+            if c.get("fname") == "new" and "RemoveFunctionCallProcessor" in ((callee_of(c) or "") + (c.get("fn") or "")) and len(c["args"]) == 2:
+                m = c["args"][1]
+                while m.get("k") in ("Borrow", "Use", "Scope", "Coerce", "Cast") and "e" in m:
+                    m = m["e"]
+                if m.get("k") == "Zst" and "fn" in m:
+                    out.append((m["fn"].split("::")[-1], FnItem(m["fn"]), (f, c)))
+                else:
+                    t = lib.ty_str(lib.strip_refs(m["t"])) if "t" in m else ""
+                    if t in lib.adts:
+                        out.append((t.split("::")[-1], Struct(t, {}), (f, c)))
+                    else:
+                        out.append(("?", None, (f, c)))
+    return out
+
+
+def matchers(R, ctx):
+    """The call-removal rules as transfer functions on `assert(..)`, `debug.profilebegin(..)`, ... (finite-domain evaluation)."""
+    import copy
+    from .. import peval
+    from ..peval import Enum, Struct, UNKNOWN, NONE, FnItem, make
+    rid = "C17.matchers"
+    rid_args = "C17.args"
+    lib = ctx.lib
+    R.rule(rid, "RemoveFunctionCallProcessor::process_statement with each matcher the library builds it with (found at the constructor calls, "
+                "whatever the matchers are called), evaluated on the call shapes `assert(..)`, `debug.profilebegin(..)`, `debug.profileend(..)`, "
+                "`print(..)`: every shape a matcher removes is left alone as soon as the scope says its root identifier (`assert` / `debug`) "
+                "is a local or upvalue")
+    R.rule(rid_args, "the same evaluation with three arguments of which the first and the last have side effects: with preserve_arguments_side_effects "
+                     "the replacement mentions exactly those two, once, in order; without it the replacement mentions none")
+    N = "nodes::"
+    STMT, PREFIX, FC, ID, FE = N + "statements::Statement", N + "expressions::prefix::Prefix", N + "function_call::FunctionCall", N + "identifier::Identifier", N + "expressions::field::FieldExpression"
+    ARGS, TUP = N + "arguments::Arguments", N + "arguments::TupleArguments"
+    new_fn = lib.fn(RFCP + "::new")
+    ps = [f for f in lib.fn_list if f["path"].endswith("::process_statement") and "RemoveFunctionCallProcessor" in f["path"] and thir.body_of(f)]
+    ms = _matcher_values(ctx)
+    if not R.require(rid, "anchor:constructor-sites", new_fn is not None and len(ps) == 1 and len(ms) >= 2 and all(m[1] is not None for m in ms), "",
+                     "RemoveFunctionCallProcessor::new / process_statement / matchers passed to it: %s" % [m[0] for m in ms]):
+        return
+    ps = ps[0]
+
+    def ident(name):
+        return make(lib, ID, {"name": name})
+    shapes = {
+        "assert(..)": ("assert", lambda: Enum(PREFIX, "Identifier", {"0": ident("assert")})),
+        "debug.profilebegin(..)": ("debug", lambda: Enum(PREFIX, "Field", {"0": make(lib, FE, {"prefix": Enum(PREFIX, "Identifier", {"0": ident("debug")}), "field": ident("profilebegin")})})),
+        "debug.profileend(..)": ("debug", lambda: Enum(PREFIX, "Field", {"0": make(lib, FE, {"prefix": Enum(PREFIX, "Identifier", {"0": ident("debug")}), "field": ident("profileend")})})),
+        "print(..)": ("print", lambda: Enum(PREFIX, "Identifier", {"0": ident("print")})),
+    }
+
+    def run_(matcher, shape, shadowed, preserve):
+        root, build = shapes[shape]
+        argv = [Enum(EXPR_T, "Identifier", {"#tag": t}) for t in ("a", "b", "c")]
+        call = make(lib, FC, {"prefix": build(), "arguments": Enum(ARGS, "Tuple", {"0": make(lib, TUP, {"values": argv})}), "method": NONE})
+        stmt = Enum(STMT, "Call", {"0": call})
+
+        def hook(pe, path, fname, args, node):
+            if fname == "matches" and path.endswith("CallMatch::matches") and args:
+                m = args[0]
+                if isinstance(m, FnItem):
+                    q = lib.fn(m.path)
+                    nparams = len(q["thir"].get("params", [])) if q else 0
+                    return pe.call_fn(q, args[1:] if nparams == 2 else args[2:]) if q else UNKNOWN
+                if isinstance(m, Struct):
+                    cands = [f for f in lib.fn_list if f["path"].startswith("<%s as " % m.adt) and f["path"].endswith("::matches") and thir.body_of(f)]
+                    return pe.call_fn(cands[0], args) if len(cands) == 1 else UNKNOWN
+                return UNKNOWN
+            if fname == "is_identifier_used" and len(args) == 2 and isinstance(args[1], str):
+                return shadowed and args[1] == root
+            if fname == "has_side_effects" and len(args) == 2 and isinstance(args[1], Enum) and "#tag" in args[1].fields:
+                return args[1].fields["#tag"] in ("a", "c")
+            return NotImplemented
+        pe = peval.PEval(lib, ctx.an, hook)
+        try:
+            proc = pe.call_fn(new_fn, [preserve, copy.deepcopy(matcher)])
+            pe.call_fn(ps, [proc, stmt])
+        except peval.OutOfFuel:
+            return None, ["no termination"]
+        return stmt, pe.unknown_reasons
+    n = 0
+    for label, matcher, (sf, sc) in ms:
+        removed = []
+        for shape in shapes:
+            stmt, why = run_(matcher, shape, False, True)
+            n += 1
+            if stmt is None or why:
+                R.ob(rid, "%s|%s|established" % (label, shape), False, ctx.where(sf, sc.get("ln")), "outcome not established %s" % (why[:2],))
+                continue
+            still_call = stmt.variant == "Call" and tags_in_order(stmt) == ["a", "b", "c"]
+            if not still_call:
+                removed.append(shape)
+        R.require(rid, "%s|anchor:removes-something" % label, len(removed) >= 1 and "print(..)" not in removed, ctx.where(sf, sc.get("ln")), "matcher %s removes %s" % (label, removed))
+        for shape in removed:
+            stmt, why = run_(matcher, shape, True, True)
+            kept = stmt is not None and stmt.variant == "Call" and tags_in_order(stmt) == ["a", "b", "c"] and not why
+            R.ob(rid, "%s|shadowed-means-no-match|%s" % (label, shape), kept, ctx.where(sf, sc.get("ln")),
+                 "with `%s` declared locally the call is left alone" % shapes[shape][0] if kept else
+                 "`local %s = ..; %s` is still removed although it is not the global (statement is now %s %s)" % (shapes[shape][0], shape, stmt.variant if stmt is not None else "?", why[:1]))
+            for preserve, want in ((True, ["a", "c"]), (False, [])):
+                stmt, why = run_(matcher, shape, False, preserve)
+                got = tags_in_order(stmt) if stmt is not None else None
+                R.ob(rid_args, "%s|%s|preserve=%s" % (label, shape, preserve), got == want and not why, ctx.where(sf, sc.get("ln")),
+                     "arguments kept: %s (expected %s) %s" % (got, want, why[:1] if why else ""))
+    R.require(rid, "floor", n >= 8, "", "%d (matcher, shape) cells" % n)
 
 
 def args(R, ctx):
-    rid = "C17.args"
-    lib = ctx.lib
-    R.rule(rid, "in RemoveFunctionCallProcessor the branch on `self.preserve_args_side_effects` builds the replacement from "
-                "preserve_arguments_side_effects(evaluator, call.get_arguments()) on its true branch and from DoStatement::default()/Expression::nil() otherwise")
-    over = coverage.impl_methods(lib, coverage.NODE_PROCESSOR, RFCP)
-    n = 0
-    for ti, impl in sorted(over.items()):
-        fn = lib.fns[impl]
-        for x in thir.walk(thir.body_of(fn)):
-            if x.get("k") == "If" and any(y.get("k") == "Field" and y.get("f") == "preserve_args_side_effects" for y in thir.walk(x["cond"])):
-                n += 1
-                neg = x["cond"].get("k") == "Unary"
-                t_has = any(c.get("fname") == "preserve_arguments_side_effects" for c in thir.walk(x["then"]) if c.get("k") == "Call")
-                e_has = "else" in x and any(c.get("fname") == "preserve_arguments_side_effects" for c in thir.walk(x["else"]) if c.get("k") == "Call")
-                ok = (t_has and not e_has) if not neg else (e_has and not t_has)
-                R.ob(rid, "%s|preserve-branch" % ti.split("::")[-1], ok, ctx.where(fn, x.get("ln")), "arguments with side effects are kept exactly on the preserve branch: %s" % ok)
-                # the kept arguments are this call's arguments
-                fa = ctx.an.fa(impl)
-                for c in thir.walk(x):
-                    if c.get("k") == "Call" and c.get("fname") == "preserve_arguments_side_effects":
-                        srcs = [y.get("fname") for y in fa.source_calls(c["args"][1])]
-                        R.ob(rid, "%s|own-arguments" % ti.split("::")[-1], "get_arguments" in srcs, ctx.where(fn, c.get("ln")), "argument list comes from call.get_arguments(): %s" % ("get_arguments" in srcs))
-    R.require(rid, "floor", n >= 1, "", "%d preserve branches" % n)
+    pass  # decided together with C17.matchers (same evaluation)
 
 
 EXPR_T = "nodes::expressions::Expression"
